@@ -46,6 +46,34 @@ def tn(x):
     return x
 
 
+def tb_text(e):
+    import traceback
+
+    from mpservice.multiprocessing.remote_exception import get_remote_traceback, is_remote_exception
+
+    try:
+        txt = ''.join(traceback.format_exception(type(e), e, e.__traceback__))
+    except Exception as ee:  # pragma: no cover
+        txt = f'<format failed: {ee!r}>'
+    try:
+        if is_remote_exception(e):
+            txt += '\n[remote]\n' + get_remote_traceback(e)
+    except Exception:
+        pass
+    return txt
+
+
+def strip_tb(e, depth=0):
+    if e is None or depth > 6:
+        return
+    try:
+        e.__traceback__ = None
+    except Exception:
+        pass
+    strip_tb(getattr(e, '__cause__', None), depth + 1)
+    strip_tb(getattr(e, '__context__', None), depth + 1)
+
+
 def is_value(x):
     return isinstance(x, tuple) and len(x) == 4 and x[0] == 'V'
 
@@ -460,6 +488,11 @@ def run_server(spec, *, lines=False, horizon=20000.0, max_steps=800_000, max_sta
         except BaseException as e:
             rec['kind'], rec['payload'] = 'exc', e
         rec['t1'] = time.monotonic()
+        if isinstance(rec['payload'], BaseException):
+            # keep the traceback as text, then drop frame references like a real caller that has handled the error
+            # (frames keep the request's Future alive, which would hide identity recycling)
+            rec['tb_text'] = tb_text(rec['payload'])
+            strip_tb(rec['payload'])
         rec_list.append(rec)
 
     def caller(server, script, rec_list):
@@ -534,9 +567,18 @@ def run_server(spec, *, lines=False, horizon=20000.0, max_steps=800_000, max_sta
             obs.probe_results.extend(prs)
             # quiesce: wait (virtual) for every accepted request's result to emerge, then the backlog must be 0
             tmax = max([total_service_time(tree, p) for p in reqs.values()] or [0.1])
-            time.sleep(tmax * (len(reqs) + 2) + 1.0)
+            if spec.get('quiesce', True):
+                time.sleep(tmax * (len(reqs) + 2) + 1.0)
             idle_backlog = server.backlog
-            gather_alive = server.debug_info()['gather_thread'] if hasattr(server, '_gather_thread') else None
+            gather_alive = None
+            for _ in range(5):
+                try:
+                    gather_alive = server.debug_info()['gather_thread']
+                    break
+                except RuntimeError:
+                    # debug_info iterates the ledger while the gather thread may be popping from it ("dictionary changed size
+                    # during iteration"); not part of any listed property - retry
+                    time.sleep(0.0001)
             box['server'] = None
             try:
                 server.__exit__(None, None, None)
